@@ -16,8 +16,11 @@ pub struct Scenario {
     pub name: String,
     pub cfg: EngineCfg,
     pub alloc: u8,
-    /// deviation bound
+    /// deviation bound that is always completed (unless a cap hits)
     pub bound: usize,
+    /// deeper levels are explored while the next level still fits into `budget` executions
+    pub bound_max: usize,
+    pub budget: u64,
     /// cap on executions (0 = none) and wall clock seconds (0 = none)
     pub max_execs: u64,
     pub max_wall: f64,
@@ -39,6 +42,8 @@ impl Scenario {
             cfg: EngineCfg::default(),
             alloc: alloc::QUARANTINE,
             bound: 2,
+            bound_max: 2,
+            budget: 0,
             max_execs: 0,
             max_wall: 0.0,
             shards: 1,
@@ -63,6 +68,13 @@ impl Scenario {
     }
     pub fn bound(mut self, b: usize) -> Self {
         self.bound = b;
+        self.bound_max = self.bound_max.max(b);
+        self
+    }
+    /// go deeper than `bound` (up to `max`) as long as the whole next level fits into `budget` executions
+    pub fn deepen(mut self, max: usize, budget: u64) -> Self {
+        self.bound_max = max.max(self.bound);
+        self.budget = budget;
         self
     }
     pub fn desc(mut self) -> Self {
@@ -102,7 +114,7 @@ impl Scenario {
         json!({
             "coarse": self.cfg.coarse, "post_points": self.cfg.post_points, "t2": self.cfg.t2, "desc": self.cfg.desc, "horizon": self.cfg.horizon,
             "vt_horizon_ns": self.cfg.vt_horizon, "fair": self.cfg.fair, "alloc": alloc::mode_name(self.alloc),
-            "bound": self.bound
+            "bound": self.bound, "bound_max": self.bound_max, "deepen_budget": self.budget
         })
     }
 }
@@ -180,6 +192,9 @@ pub fn child_main(sc: &Scenario, shared: *mut Shared, sched: &Sched) -> ! {
     unsafe {
         // a child that runs into real time trouble is killed by SIGALRM (machinery fault)
         libc::alarm(60);
+        // no core dumps for crashing executions
+        let rl = libc::rlimit { rlim_cur: 0, rlim_max: 0 };
+        libc::setrlimit(libc::RLIMIT_CORE, &rl);
     }
     let e = Engine::new(shared, sched.devs.clone(), sched.expect_fp, sc.cfg.clone());
     alloc::set_mode(sc.alloc);
@@ -285,6 +300,7 @@ pub struct ScenarioResult {
     pub bound_requested: usize,
     pub bound_completed: i64,
     pub capped: Option<String>,
+    pub tree_exhausted: bool,
     pub n0: u32,
     pub max_n: u32,
     pub max_steps: u64,
@@ -320,7 +336,7 @@ impl ScenarioResult {
             "name": self.name, "family": self.family, "cfg": self.cfg,
             "executions": self.executions, "per_level": self.per_level,
             "bound_requested": self.bound_requested, "bound_completed": self.bound_completed,
-            "capped": self.capped, "n0": self.n0, "max_choice_points": self.max_n, "max_steps": self.max_steps,
+            "capped": self.capped, "tree_exhausted": self.tree_exhausted, "n0": self.n0, "max_choice_points": self.max_n, "max_steps": self.max_steps,
             "states": self.states, "transitions": self.transitions,
             "outcomes": self.outcomes, "statuses": self.statuses,
             "sigs": self.sigs.iter().map(|s| format!("{:x}", s)).collect::<Vec<_>>(),
@@ -351,6 +367,7 @@ impl ScenarioResult {
             bound_requested: v["bound_requested"].as_u64().unwrap_or(0) as usize,
             bound_completed: v["bound_completed"].as_i64().unwrap_or(-1),
             capped: v["capped"].as_str().map(|s| s.to_string()),
+            tree_exhausted: v["tree_exhausted"].as_bool().unwrap_or(false),
             n0: v["n0"].as_u64().unwrap_or(0) as u32,
             max_n: v["max_choice_points"].as_u64().unwrap_or(0) as u32,
             max_steps: v["max_steps"].as_u64().unwrap_or(0),
@@ -393,6 +410,7 @@ impl ScenarioResult {
         if self.capped.is_none() {
             self.capped = o.capped;
         }
+        self.tree_exhausted = self.tree_exhausted && o.tree_exhausted;
         self.n0 = self.n0.max(o.n0);
         self.max_n = self.max_n.max(o.max_n);
         self.max_steps = self.max_steps.max(o.max_steps);
@@ -457,7 +475,10 @@ pub fn explore(sc: &Scenario, opts: &Opts) -> ScenarioResult {
     let (shard_k, shard_n) = opts.shard;
     let mut capped: Option<String> = None;
 
-    'levels: for d in 0..=sc.bound {
+    'levels: for d in 0..=sc.bound_max.max(sc.bound) {
+        if d > sc.bound && res.executions + level.len() as u64 > sc.budget {
+            break;
+        }
         let mut next: Vec<Sched> = vec![];
         let n_level = level.len() as u64;
         let mut it = level.into_iter();
@@ -566,7 +587,7 @@ pub fn explore(sc: &Scenario, opts: &Opts) -> ScenarioResult {
                 }
             }
             // children: one more deviation at a later position
-            if slot.sched.devs.len() < sc.bound && !is_machinery(sum.status) {
+            if slot.sched.devs.len() < sc.bound_max.max(sc.bound) && !is_machinery(sum.status) {
                 let start = slot.sched.devs.last().map(|x| x.0 as usize + 1).unwrap_or(0);
                 let mut ord = 0usize;
                 for i in start..n {
@@ -597,7 +618,8 @@ pub fn explore(sc: &Scenario, opts: &Opts) -> ScenarioResult {
         level = next;
         if level.is_empty() {
             // the whole schedule tree is exhausted below the bound
-            res.bound_completed = sc.bound as i64;
+            res.bound_completed = (sc.bound_max.max(sc.bound)) as i64;
+            res.tree_exhausted = true;
             break;
         }
     }
